@@ -281,10 +281,36 @@ theorem history_gost_std (ops : List Op) (hops : chunksOK (fun d => d.length < 2
     (Hash.new gost).run ops = specRun hashLen_gost (fun cs => SpecStd.gost cs.flatten) ⟨[], false⟩ ops := by
   rw [history_gost ops hops]; simp only [SpecStdProof.gost_eq]
 
+/-! ## the rest of the entry points: accepted type integers, NULL arguments (see `PV.Props.C11md` (d)) -/
+
+/-- the five enumerator values of this family pass the range test and select their own table row's digest length -/
+theorem new_by_code_x :
+    (codeTable.map fun p => (typeAccepted p.1, (implOfCode p.1).map (·.hashLen))) =
+      [(true, some hashLen_sha3_224), (true, some hashLen_sha3_256), (true, some hashLen_sha3_384),
+       (true, some hashLen_sha3_512), (true, some hashLen_gost)] := by decide
+
+/-- any integer outside the enumeration is refused -/
+theorem new_refuses_outside_x (c : Int) (h : c < 0 ∨ 10 < c) : typeAccepted c = false := by
+  have h1 : PV.Generated.HashX.typeCodeMin = 0 := rfl
+  have h2 : PV.Generated.HashX.typeCodeMax = 10 := rfl
+  unfold typeAccepted
+  rw [h1, h2]
+  rcases h with h | h
+  · have : ¬ (0 ≤ c) := by omega
+    simp [this]
+  · have : ¬ (c ≤ 10) := by omega
+    simp [this]
+
+/-- NULL data, a NULL output buffer and a NULL length pointer leave the object as it was -/
+theorem null_arguments_ignored_x {A : Impl} (h : Hash A) (n cap : Nat) :
+    h.updateNull n = h ∧ h.getDigestNullBuf cap = (h, 0) ∧ h.getDigestNullLen = h := ⟨rfl, rfl, rfl⟩
+
 /-! ## non-vacuity -/
 example : ∀ c ∈ ([[1, 2, 3], [], [4]] : List Bytes), c.length < 2 ^ 61 := by decide
 example : chunksOK (fun d => d.length < 2 ^ 61) [.upd [1], .str, .upd [2], .dig 5, .reset, .upd [], .dig 32] := by
   intro d hd; simp at hd; rcases hd with rfl | rfl | rfl <;> decide
 example : (specRun 32 (fun _ => [0xAB]) ⟨[], false⟩ [.upd [1], .dig 5, .dig 32, .upd [2], .str]).length = 5 := by decide
+
+example : typeAccepted 10 = true ∧ typeAccepted 11 = false ∧ typeAccepted (-1) = false := by decide
 
 end PV.HashX.C11x
